@@ -8,3 +8,4 @@ pub mod sim;
 pub mod model;
 pub mod ops;
 pub mod oracle_commit;
+pub mod oracle_revoke;
